@@ -162,6 +162,17 @@ def check_prop(res, rng, ast, names, payload=None):
         return f"query {fd[0]} answers differently after the round trip: {json.dumps(fd[1])[:300]} -> {json.dumps(fd[2])[:300]}"
     if sdump(pg.from_b64(m2.to_b64())) != d1:
         return "second round trip changes the structure"
+    # an object that has already answered queries must pack to the same thing as a fresh one
+    used = build(ast)
+    prop_queries(used, envs, prios)
+    u2 = pg.from_b64(used.to_b64())
+    res.evaluations += 1
+    if sdump(u2) != d1:
+        return f"an object packed AFTER it answered queries unpacks to a different structure: {json.dumps(sdump(u2))[:300]} vs {json.dumps(d1)[:300]}"
+    q3 = prop_queries(u2, envs, prios)
+    fd = first_diff(q1, q3)
+    if fd:
+        return f"query {fd[0]} answers differently on an object packed after it answered queries: {json.dumps(fd[1])[:300]} -> {json.dumps(fd[2])[:300]}"
     return None
 
 # ----------------------------------------------------------------------------- polyhedra
